@@ -1,4 +1,5 @@
 import Proofs.Detect
+import Proofs.Pipeline
 /-!
 # C06 — consistency burst labels follow the threshold-and-run rule
 
@@ -63,6 +64,13 @@ theorem C06_rejects_threshold (rows : List CycRow) (th : CycThresh) (h : ¬ th.v
 theorem C06_rejects_minN (rows : List CycRow) (th : CycThresh) (hv : th.valid) (hne : rows ≠ [])
     (hk : th.minN < 0) : detectCycles rows th = .error .valueError :=
   detectCycles_rejects_minN rows th hv hne hk
+
+/-- end to end: in every table returned by the (modelled) consistency-method pipeline the labels are the
+threshold-and-run rule applied to that table's own features. -/
+theorem C06_pipeline (c : Centre) (x : List Rat) (pad : Nat) (b : List Bool) (amp : List Rat) (bd : Int) (th : CycThresh)
+    (o : PipeOut) (h : pipelineCycles c x pad b amp bd th = .ok o) (hv : th.valid) (hk : 0 ≤ th.minN) :
+    o.labels = cyclesSpec o.feats th ∧ o.feats.length = o.samples.length ∧ o.shape.length = o.samples.length :=
+  pipeline_labels c x pad b amp bd th o h hv hk
 
 /-! non-vacuity -/
 example : (⟨0, 1/2, 1/2, 4/5, 3⟩ : CycThresh).valid := by decide +kernel
